@@ -144,4 +144,17 @@ def drvAd (toks : List String) : String :=
   | ["powi", x, dx, n] => out (BA.powiAD ⟨hx x, hx dx⟩ n.toInt!)
   | _ => "bad-request"
 
+/-- `d1def a b x g0 g1`: the GENERATED trait defaults of `Differentiable1D` on the hand-written
+    implementor `f t = sin(a t) + b t², df t = a cos(a t) + 2 b t` -/
+def drvD1Def (toks : List String) : String :=
+  match toks with
+  | [a, b, x, g0, g1] =>
+    let a := hx a; let b := hx b
+    let f : Float → Float := fun t => Float.sin (a * t) + b * t * t
+    let df : Float → Float := fun t => a * Float.cos (a * t) + 2.0 * b * t
+    let p := D1.fdfDefault f df (hx x)
+    let c := D1.compositionDefault f df (hx g0, hx g1)
+    s!"{fx p.1} {fx p.2} {fx c.1} {fx c.2}"
+  | _ => "bad-request"
+
 end Cav.Drv
